@@ -56,6 +56,11 @@ def parse_report(text):
             if not libf:
                 libf = [f for f, rest in frames if not f.startswith('__') and 'asan' not in rest][:3]
             key = '%s:%s:%s' % (tool, klass, '<'.join(libf[:3]))
+            if klass == 'stack-overflow':
+                # the innermost frames vary from run to run; the recursion cycle (functions seen repeatedly) does not
+                cyc = sorted(set(f for f in libf if libf.count(f) >= 3))
+                if cyc:
+                    key = '%s:%s:recursion:%s' % (tool, klass, '+'.join(cyc))
             out.append((key, '\n'.join(lines[i:min(n, j + 1)])[:3000]))
             i = j
             continue
